@@ -15,10 +15,13 @@ KERNEL_NOTE = ('Trusted base: the simulation kernel (virtual clock; baton schedu
 
 CHECKS = {
     'C01': dict(
-        technique=PBT + 'an independent reference codec + exhaustive catalogue product',
+        technique=PBT + 'an independent reference codec + exhaustive catalogue product + '
+                        'coverage-guided fuzzing (atheris) with the same oracle',
         text='Generated search: ~5*10^4 (quick) / ~10^6 (thorough) packets x encode-call histories '
              'compared with a reference v4 encoder/decoder written from the statement; plus the '
              'full product 7 types x 54-payload catalogue x every flag sequence up to length 3/4. '
+             'Thorough tier adds 16 atheris campaigns of 150k executions (structured decoding '
+             'of the fuzzer bytes; engineio and the reference model both instrumented). '
              'Not a proof: the payload space is infinite; the flag-history part is complete up to '
              'length 4 for the catalogue.',
         note='Trusts stdlib json/base64 as the reference. Container ints >= 10^100 are outside the '
@@ -26,12 +29,14 @@ CHECKS = {
         design='4/C01'),
     'C02': dict(
         technique=PBT + 'a reference body reader; exhaustive enumeration of all short strings over '
-                        'an adversarial alphabet',
+                        'an adversarial alphabet; coverage-guided fuzzing (atheris) with the same '
+                        'oracle',
         text='Every string of length <=4 over 20 symbols (quick, 168k) / <=5 over 24 symbols '
              '(thorough, 8.3M) is decoded and compared with a reference reader (invalid => must '
              'raise, well-formed => equal, rest => total); plus generated packet lists of 0..20 '
              'packets (encode == separator join, round trip, >16 refused, d= forms) and size '
-             'templates for no-hang. Exhaustive for the short-string domain only.',
+             'templates for no-hang; thorough adds 16 atheris campaigns of 150k executions over '
+             'strings, d= forms and packet lists. Exhaustive for the short-string domain only.',
         note='Trusts stdlib json/base64/urllib.parse. Malformed base64, non-ASCII digits and '
              'nesting beyond the recursion limit are open cells (totality only). Hangs are '
              'detected by a 5 s x3 wall-clock rule on templates.',
